@@ -48,6 +48,7 @@ import (
 	"github.com/hashicorp/consul/agent/structs"
 	"github.com/hashicorp/consul/api"
 	"github.com/hashicorp/consul/internal/verifkit"
+	kvm "github.com/hashicorp/consul/internal/verifkvm"
 	vs "github.com/hashicorp/consul/internal/verifstate"
 	"pgregory.net/rapid"
 )
@@ -1027,7 +1028,7 @@ func TestVerifC07Replay(t *testing.T) {
 		} else {
 			c.Label("replay")
 		}
-		verifC07Run(t, c, verifC07Feeder(verifLoadOps(t, path)))
+		verifC07Run(t, c, verifC07Feeder(kvm.LoadOps(t, path)))
 		c.Done()
 	}
 }
